@@ -115,6 +115,8 @@ def replay(ctx, engine, fl, path):
         p = subprocess.run([os.path.join(d, "thrsim"), "--replay", path], capture_output=True, text=True)
         sys.stdout.write(symbolise(os.path.join(d, "thrsim"), p.stdout))
         return p.returncode
+    if engine == "cfgsim":
+        return replay_c12(ctx, path)
     print("unknown engine in replay file: %s" % engine)
     return 2
 
@@ -125,3 +127,139 @@ def prebuild(ctx):
         print("built", fl)
     props.build_flavour(ctx, "tsanhook_clang")
     print("built tsanhook_clang")
+
+
+# ----------------------------------------------------------------------------- C12 cfgsim
+SIMD = {"both": {"LITTLE_ENDIAN": 1, "VEC128_MATH": 1, "VEC256_MATH": 1}, "v128": {"LITTLE_ENDIAN": 1, "VEC128_MATH": 1, "VEC256_MATH": 0},
+        "off": {"LITTLE_ENDIAN": 1, "VEC128_MATH": 0, "VEC256_MATH": 0}, "offbe": {"LITTLE_ENDIAN": 0, "VEC128_MATH": 0, "VEC256_MATH": 0}}
+QUICK_CFGS = [("gcc", "-O3", 1, 1, "both"), ("clang", "-O3", 0, 0, "off"), ("gcc", "-O0", 0, 1, "v128"), ("clang", "-O0", 1, 0, "both"),
+              ("gcc", "-O1", 1, 0, "offbe"), ("clang", "-O1", 0, 1, "offbe"), ("gcc", "-O2", 0, 0, "both"), ("clang", "-O2", 1, 1, "v128"),
+              ("gcc", "-O2", 1, 1, "off"), ("clang", "-O3", 1, 0, "v128"), ("gcc", "-O3", 0, 1, "offbe"), ("clang", "-O0", 0, 0, "off")]
+
+
+def all_cfgs():
+    out = []
+    for cc in ("gcc", "clang"):
+        for opt in ("-O0", "-O1", "-O2", "-O3"):
+            for w in (0, 1):
+                for u in (0, 1):
+                    for simd in ("both", "v128", "off", "offbe"):
+                        out.append((cc, opt, w, u, simd))
+    return out
+
+
+def cfg_name(c):
+    return "cfg-%s%s-w%d-u%d-%s" % (c[0], c[1], 64 if c[2] else 32, c[3], c[4])
+
+
+def build_cfg(ctx, c):
+    name = cfg_name(c)
+    d = os.path.join(ctx.B, name)
+    defs = ["SKINNY_VERIF", "SKINNY_VERIF_64BIT=%d" % c[2], "SKINNY_VERIF_UNALIGNED=%d" % c[3]] + ["SKINNY_VERIF_%s=%d" % kv for kv in SIMD[c[4]].items()]
+    cmd = [sys.executable, os.path.join(ctx.V, "mk", "buildlib.py"), "cfg", os.path.join(d, "lib"), "--repo", ctx.repo, "--cc", c[0], "--opt=" + c[1]]
+    for x in defs:
+        cmd += ["--def", x]
+    with props.BuildLock(ctx.B):
+        p = subprocess.run(cmd, capture_output=True, text=True)
+        if p.returncode == 3:      # a library source does not compile in this configuration
+            return None, "build of %s failed:\n%s" % (name, p.stderr[-1500:])
+        if p.returncode != 0:
+            sys.stderr.write(p.stdout + p.stderr)
+            print("HARNESS-ERROR property=C12 cfg=%s" % name)
+            raise SystemExit(2)
+        p = subprocess.run(["make", "-C", os.path.join(ctx.V, "sim"), "FLAVOUR=" + name, "REPO=" + ctx.repo, "B=" + ctx.B, "LINKSAN=0", "-j16", "objsim"], capture_output=True, text=True)
+        if p.returncode != 0:
+            sys.stderr.write(p.stdout[-3000:] + p.stderr[-6000:])
+            raise SystemExit(2)
+    return d, None
+
+
+def run_digests(ctx, d, name, runs, first=0):
+    out = os.path.join(ctx.B, "out", "C12-%s-%d.json" % (name, os.getpid()))
+    os.makedirs(os.path.dirname(out), exist_ok=True)
+    cmd = [os.path.join(d, "objsim"), "--prop", "DIG", "--seed", str(ctx.seed), "--runs", str(runs), "--first", str(first), "--digests", "--out", out,
+           "--outdir", os.path.join(ctx.B, "out"), "--workers", "16", "--replaydir", ctx.replay_dir]
+    return _run_json(cmd, out, "property=C12 cfg=" + name)
+
+
+def explain_digest_diff(ctx, da, db, run):
+    """operation-level diff of one seeded run on two builds"""
+    def dump(d):
+        p = subprocess.run([os.path.join(d, "objsim"), "--prop", "DIG", "--seed", str(ctx.seed), "--dump", str(run)], capture_output=True, text=True)
+        return [re.sub(r"\s+\[[a-z\-]+,be=-?\d+\]$", "", l) for l in p.stdout.split("\n")]
+    a, b = dump(da), dump(db)
+    for i, (x, y) in enumerate(zip(a, b)):
+        if x != y:
+            return ["first difference at trace line %d:" % i, "  A: " + x[:300], "  B: " + y[:300]] + ["  context: " + l[:200] for l in a[max(0, i - 4):i]]
+    return ["(dumps are identical line by line although the digests differ)"]
+
+
+def check_c12(ctx):
+    cfgs = QUICK_CFGS if ctx.tier == "quick" else all_cfgs()
+    runs = 3000 if ctx.tier == "quick" else 12000
+    known, _ = props.load_known(ctx)
+    known_here = [k for k in known if k["property"] == "C12"]
+    ref = None
+    results, violations, findings, builds = [], [], [], []
+    for c in cfgs:
+        name = cfg_name(c)
+        d, err = build_cfg(ctx, c)
+        if err:
+            # a configuration that does not compile is reported, not silently skipped
+            path = os.path.join(ctx.replay_dir, "C12-%s-build.replay" % name)
+            open(path, "w").write("engine cfgsim\nprop C12\ncfg %s\nexpect build-failure\n# %s\n" % (name, err.replace("\n", "\n# ")))
+            violations.append(({"inv": "build-failure", "sig": "build-failure:" + name, "msg": err[:600], "replay": path, "flavour": name, "trace": [], "run": -1, "ops_before": 0, "ops_after": 0}, None))
+            continue
+        r = run_digests(ctx, d, name, runs)
+        builds.append(name)
+        results.append((name, r))
+        for v in r["violations"]:   # crashes inside a configuration
+            v["flavour"] = name
+            violations.append((v, None))
+        if ref is None:
+            ref = (name, d, r["digests"])
+            continue
+        bad = sorted((k for k in ref[2] if k in r["digests"] and ref[2][k] != r["digests"][k]), key=int)
+        if bad:
+            path = os.path.join(ctx.replay_dir, "C12-%s-vs-%s-%d-%s.replay" % (ref[0], name, ctx.seed, bad[0]))
+            expl = explain_digest_diff(ctx, ref[1], d, bad[0])
+            with open(path, "w") as f:
+                f.write("# cfgsim replay: one seeded history, two build configurations, API-visible results must be identical\n")
+                f.write("engine cfgsim\nprop C12\nseed %d\nrun %s\ncfg_a %s\ncfg_b %s\nexpect config-dependence\n" % (ctx.seed, bad[0], "|".join(map(str, cfgs[0])), "|".join(map(str, c))))
+                for l in expl:
+                    f.write("# " + l + "\n")
+            v = {"inv": "config-dependence", "sig": "config-dependence:" + name, "run": int(bad[0]), "op": -1, "replay": path, "flavour": name, "trace": expl, "ops_before": 0, "ops_after": 0, "occurrences": len(bad),
+                 "msg": "%d of %d seeded histories give different API-visible results on build %s than on the reference build %s (first: run %s)" % (len(bad), len(ref[2]), name, ref[0], bad[0])}
+            hit = [k for k in known_here if k["sig"] == v["sig"]]
+            (findings if hit else violations).append((v, hit[0] if hit else None))
+    extra = {"builds": builds, "configurations": len(builds), "exhaustive": ctx.tier != "quick",
+             "matrix": "compiler {gcc,clang} x -O{0,1,2,3} x SKINNY_64BIT {0,1} x SKINNY_UNALIGNED {0,1} x {SIMD 128+256, SIMD 128, SIMD off, SIMD off + byte-order-neutral path}: 128 builds; quick = 12 builds covering every pair of switch values",
+             "components": {"real": "all of /repo/src, once per configuration, through the SKINNY_VERIF hook", "simulated": "allocator, CPUID (restricted by what the build contains), garbage, placement"}}
+    rule = ("one seed = one history (mixture of the C03-C10/C14/C15 workloads), replayed on every build configuration; the digest of all API-visible results (return values and output bytes, "
+            "no structure images, no back-end identity) must equal the reference configuration's; evaluations = histories x configurations")
+    rc = props.finish(ctx, "exploration", rule, results, violations, findings, extra_cov=extra,
+                      assumptions=["-m32 code generation cannot be linked in this sandbox; the 32-bit word paths are reached through SKINNY_64BIT=0", "big-endian hosts are out of reach; SKINNY_LITTLE_ENDIAN=0 is the byte-order-neutral scalar path on this little-endian host, with SIMD off"])
+    return rc
+
+
+def replay_c12(ctx, path):
+    cfg = {}
+    for ln in open(path):
+        t = ln.split()
+        if t and t[0] in ("seed", "run", "cfg_a", "cfg_b"):
+            cfg[t[0]] = t[1]
+    def parse(s):
+        a = s.split("|"); return (a[0], a[1], int(a[2]), int(a[3]), a[4])
+    ctx.seed = int(cfg["seed"])
+    ca, cb = parse(cfg["cfg_a"]), parse(cfg["cfg_b"])
+    da, _ = build_cfg(ctx, ca); db, _ = build_cfg(ctx, cb)
+    ra = run_digests(ctx, da, cfg_name(ca), 1, int(cfg["run"])); rb = run_digests(ctx, db, cfg_name(cb), 1, int(cfg["run"]))
+    if ra["digests"] == rb["digests"]:
+        print("REPLAY-CLEAN property=C12 file=%s" % path); return 0
+    for l in explain_digest_diff(ctx, da, db, cfg["run"]):
+        print(l)
+    print("VIOLATION property=C12 replay=%s" % path)
+    return 1
+
+
+CHECKS["C12"] = check_c12
